@@ -158,7 +158,7 @@ PROPERTIES["C01"] = dict(
 PROPERTIES["C02"] = dict(
     kernels=[
         kern("C02.anchor", "src/filters/network_matchers.rs", "h_network_matchers.rs", "c02_anchor", [Q], 10, 600, 6, ["filters::network_matchers::is_anchored_by_hostname"],
-             "filter-host 0..=2 bytes of [a-z0-9.-], request host = valid hostname 1..=5 bytes, wildcard flag", [("fb", B(2)), ("fl", "usize"), ("hb", B(5)), ("hl", "usize"), ("w", "bool")], "c02_anchor",
+             "filter-host 0..=3 bytes of [a-z0-9.-], request host = valid hostname 1..=6 bytes, wildcard flag", [("fb", B(3)), ("fl", "usize"), ("hb", B(6)), ("hl", "usize"), ("w", "bool")], "c02_anchor",
              asserts="anchored <=> some occurrence of the filter host in the request host has a label boundary on both sides (start/'.'/own '.', end/'.'/own '.'/wildcard)"),
         kern("C02.anchor_t", "src/filters/network_matchers.rs", "h_network_matchers.rs", "c02_anchor_t", [T], 120, 2400, 12, ["filters::network_matchers::is_anchored_by_hostname"],
              "filter-host 0..=3 bytes, request host = valid hostname 1..=7 bytes, wildcard flag", [("fb", B(3)), ("fl", "usize"), ("hb", B(7)), ("hl", "usize"), ("w", "bool")], "c02_anchor",
@@ -208,11 +208,12 @@ PROPERTIES["C03"] = dict(
 
 # ------------------------------------------------------------------------------------------------- C04
 ID_LAYOUT = lambda n: [("my", "u32"), ("a", B(n)), ("al", "usize"), ("b", B(n)), ("bl", "usize"), ("c", B(n)), ("cl", "usize"), ("d", B(n)), ("dl", "usize"),
-                       ("has_hy", "bool"), ("has_hz", "bool"), ("dy", "u64"), ("dz", "u64"), ("has_dy", "bool"), ("has_dz", "bool"), ("my2", "u32")]
+                       ("has_hy", "bool"), ("has_hz", "bool"), ("dy", "u64"), ("dz", "u64"), ("has_dy", "bool"), ("has_dz", "bool"),
+                       ("ny", "u64"), ("nz", "u64"), ("has_ny", "bool"), ("has_nz", "bool"), ("my2", "u32")]
 PROPERTIES["C04"] = dict(
     kernels=[
         kern("C04.id", "src/filters/network.rs", "h_network.rs", "c04_id", [Q], 30, 900, 8, ["filters::network::compute_filter_id", "NetworkFilter::get_id", "NetworkFilter::get_id_without_badfilter"],
-             "two rule values y, z$badfilter: arbitrary mask, filter and hostname strings 0..=2 printable ASCII bytes, hostname present/absent, 0..=1 included-domain hash",
+             "two rule values y, z$badfilter: arbitrary mask, filter and hostname strings 0..=2 printable ASCII bytes, hostname present/absent, 0..=1 included-domain hash, 0..=1 excluded-domain hash",
              ID_LAYOUT(2), "c04_id", asserts="(<=) same pattern+hostname+domains+mask => get_id_without_badfilter(z) == get_id(y); (=>) equal ids => same rule [known: id stream has no delimiters]; the mask is part of the id"),
         kern("C04.idmask", "src/filters/network.rs", "h_network.rs", "c04_id_mask", [T], 120, 2400, 12, ["filters::network::compute_filter_id"],
              "as C04.id with strings 0..=1 plus a second arbitrary mask", ID_LAYOUT(1), "c04_id", asserts="two rules that differ only in their option mask have different ids (the mask is part of the id)"),
@@ -227,15 +228,24 @@ PROPERTIES["C04"] = dict(
 # ------------------------------------------------------------------------------------------------- C05
 FUSE_LAYOUT = lambda p, u: [("b1", B(p)), ("l1", "usize"), ("b2", B(p)), ("l2", "usize"), ("ub", B(u)), ("ul", "usize"), ("e1", "bool"), ("e2", "bool"), ("m", "u32"),
                             ("t1", "bool"), ("t2", "bool"), ("rt_script", "bool"), ("tp", "bool"), ("tag_on", "bool")]
+FUSE_FUNCS = ["optimizer::SimplePatternGroup::select", "optimizer::SimplePatternGroup::fusion", "NetworkMatchable::matches (check_options + check_pattern incl. AnyOf iteration)"]
+FUSE_CONSTS = {"mask_clear": (1 << 18) | (1 << 21) | (1 << 24) | (1 << 28) | (1 << 14)}
 PROPERTIES["C05"] = dict(
     kernels=[
-        kern("C05.fuse", "src/optimizer.rs", "h_optimizer.rs", "c05_fuse", [Q], 70, 900, 10,
-             ["optimizer::SimplePatternGroup::select", "optimizer::SimplePatternGroup::fusion", "NetworkMatchable::matches (check_options + check_pattern incl. AnyOf iteration)"],
-             "two rules with the same symbolic mask (regex/host-anchor/match-case kind bits off), patterns 1..=2 printable ASCII bytes or empty, tag in {none,'a'} each, URL 0..=3 bytes, request type/party and tag-enabled flag symbolic",
-             FUSE_LAYOUT(2, 3), "c05_fuse", asserts="select(f1) and select(f2) => (fused matches and is active <=> f1 matches and is active or f2 matches and is active); select refuses domain-bearing, redirect, csp and host-anchored rules",
-             stubs=STD_REGEX_STUBS, consts={"mask_clear": (1 << 18) | (1 << 21) | (1 << 24) | (1 << 28) | (1 << 14)}),
-        kern("C05.fuse_t", "src/optimizer.rs", "h_optimizer.rs", "c05_fuse_t", [T], 600, 2400, 20, ["optimizer::SimplePatternGroup::select/fusion", "NetworkMatchable::matches"],
-             "as C05.fuse with URL 0..=4 bytes", FUSE_LAYOUT(2, 4), "c05_fuse", asserts="as C05.fuse", stubs=STD_REGEX_STUBS, consts={"mask_clear": (1 << 18) | (1 << 21) | (1 << 24) | (1 << 28) | (1 << 14)}),
+        kern("C05.fuse", "src/optimizer.rs", "h_optimizer.rs", "c05_fuse", [Q, T], 70, 1200, 12, FUSE_FUNCS,
+             "two rules with the same symbolic mask (regex/host-anchor/match-case kind bits off), patterns 1..=2 printable ASCII bytes, tag in {none,'a'} each, URL 0..=3 bytes, request type/party and tag-enabled flag symbolic",
+             FUSE_LAYOUT(2, 3), "c05_fuse", asserts="select(f1) and select(f2) => (fused matches and is active <=> f1 matches and is active or f2 matches and is active)",
+             stubs=STD_REGEX_STUBS, consts=dict(FUSE_CONSTS, force_e1=False, force_e2=False)),
+        kern("C05.fuse_e1", "src/optimizer.rs", "h_optimizer.rs", "c05_fuse_e1", [Q, T], 70, 1200, 12, FUSE_FUNCS,
+             "as C05.fuse, the first rule has an empty pattern (matches every URL)", FUSE_LAYOUT(2, 3), "c05_fuse", asserts="as C05.fuse", stubs=STD_REGEX_STUBS, consts=dict(FUSE_CONSTS, force_e1=True),
+             witnesses_optional=["W:fuse.second_member_decides"]),
+        kern("C05.fuse_e2", "src/optimizer.rs", "h_optimizer.rs", "c05_fuse_e2", [Q, T], 70, 1200, 12, FUSE_FUNCS,
+             "as C05.fuse, the second rule has an empty pattern", FUSE_LAYOUT(2, 3), "c05_fuse", asserts="as C05.fuse", stubs=STD_REGEX_STUBS, consts=dict(FUSE_CONSTS, force_e2=True)),
+        kern("C05.select", "src/optimizer.rs", "h_optimizer.rs", "c05_select", [Q, T], 10, 600, 4, ["optimizer::SimplePatternGroup::select"],
+             "all 2^32 masks x domain list / excluded list / tag present or absent", [("m", "u32"), ("has_d", "bool"), ("has_n", "bool"), ("has_tag", "bool")], "c05_select",
+             asserts="select refuses domain-bearing, tagged, redirect, csp and host-anchored rules (a fused rule cannot represent their extra fields)"),
+        kern("C05.fuse_t", "src/optimizer.rs", "h_optimizer.rs", "c05_fuse_t", [T], 600, 2400, 28, FUSE_FUNCS,
+             "as C05.fuse with URL 0..=4 bytes", FUSE_LAYOUT(2, 4), "c05_fuse", asserts="as C05.fuse", stubs=STD_REGEX_STUBS, consts=dict(FUSE_CONSTS, force_e1=False, force_e2=False)),
     ],
     level_text="Decides the fusion step: for any two rules the grouping key allows to fuse, the fused rule is active-and-matching exactly when some member is, for every request inside the bound; and eligibility (select) refuses the rule kinds a fused rule cannot represent.",
     level_note="Partial. Decided: SimplePatternGroup::select + fusion against the real per-rule matcher. The grouping key format!(\"{:b}:{:?}\", mask, is_complete_regex) is modelled as 'same mask' (format! is not executed). Outside: the optimize() driver (partition, HashMap<String,Vec<_>>, re-sort), regex-kind members, which lists are optimised.",
@@ -244,17 +254,22 @@ PROPERTIES["C05"] = dict(
 )
 
 # ------------------------------------------------------------------------------------------------- C08
-RULE_LAYOUT = [("m", "u32"), ("has_mod", "bool"), ("has_host", "bool"), ("has_tag", "bool"), ("has_raw", "bool"), ("cm", "u8"), ("ch", "u8"), ("ct", "u8"), ("cr", "u8"), ("cf", "u8"),
-               ("fk", "u8"), ("nd", "u8"), ("nn", "u8"), ("d0", "u64"), ("d1", "u64"), ("n0", "u64"), ("n1", "u64"), ("has_du", "bool"), ("has_nu", "bool"), ("du", "u64"), ("nu", "u64"), ("id", "u64")]
+V0_FUNCS = ["data_format::v0::NetworkFilterV0SerializeFmt::from(&NetworkFilter)", "NetworkFilter::from(NetworkFilterV0DeserializeFmt)"]
+V0_CUT = ["rmp-serde byte codec modelled as the identity on each field (6 symbolic bytes through rmp-serde: 11 GB, no result)"]
 PROPERTIES["C08"] = dict(
     kernels=[
-        kern("C08.rule", "src/data_format/v0.rs", "h_v0.rs", "c08_rule", [Q], 10, 600, 6,
-             ["data_format::v0::NetworkFilterV0SerializeFmt::from(&NetworkFilter)", "NetworkFilter::from(NetworkFilterV0DeserializeFmt)"],
-             "arbitrary rule value: all 2^32 masks; modifier/hostname/tag/raw_line each none or a 1-byte string; pattern Empty/Simple/AnyOf; 0..=1 included and excluded domain hashes; union words present/absent; any id",
-             RULE_LAYOUT, "c08_rule", asserts="engine rule -> wire struct -> engine rule preserves mask, id, hostname, tag, pattern, domain lists and unions, raw_line presence, and modifier_option",
-             cuts=["rmp-serde byte codec modelled as the identity on each field (6 symbolic bytes through rmp-serde: 11 GB, no result)"]),
-        kern("C08.rule_t", "src/data_format/v0.rs", "h_v0.rs", "c08_rule_t", [T], 30, 1200, 8, ["as C08.rule"], "as C08.rule with 0..=2 domain hashes per list", RULE_LAYOUT, "c08_rule", asserts="as C08.rule",
-             cuts=["rmp-serde byte codec modelled as the identity on each field"]),
+        kern("C08.rule", "src/data_format/v0.rs", "h_v0.rs", "c08_rule", [Q, T], 20, 900, 8, V0_FUNCS,
+             "arbitrary rule value: all 2^32 masks; modifier/hostname/tag/raw_line each none or a 1-byte string; any id",
+             [("m", "u32"), ("has_mod", "bool"), ("has_host", "bool"), ("has_tag", "bool"), ("has_raw", "bool"), ("cm", "u8"), ("ch", "u8"), ("ct", "u8"), ("cr", "u8"), ("id", "u64")],
+             "c08_rule", asserts="engine rule -> wire struct -> engine rule preserves mask, id, hostname, tag, raw_line presence and modifier_option", cuts=V0_CUT),
+        kern("C08.domains", "src/data_format/v0.rs", "h_v0.rs", "c08_rule_domains", [Q, T], 20, 900, 8, V0_FUNCS,
+             "included / excluded domain lists of 0..=2 symbolic hashes; union words present or absent independently",
+             [("nd", "u8"), ("nn", "u8"), ("d0", "u64"), ("d1", "u64"), ("n0", "u64"), ("n1", "u64"), ("has_du", "bool"), ("has_nu", "bool"), ("du", "u64"), ("nu", "u64")],
+             "c08_rule", asserts="both domain lists and both union words survive unchanged and unswapped", cuts=V0_CUT),
+        kern("C08.pattern.simple", "src/data_format/v0.rs", "h_v0.rs", "c08_rule_pattern_simple", [Q, T], 20, 900, 8, V0_FUNCS,
+             "pattern Simple(1 symbolic byte)", [("c0", "u8"), ("c1", "u8")], "c08_rule", asserts="the pattern part survives unchanged", cuts=V0_CUT),
+        kern("C08.pattern.anyof", "src/data_format/v0.rs", "h_v0.rs", "c08_rule_pattern_anyof", [Q, T], 20, 900, 8, V0_FUNCS,
+             "pattern AnyOf(2 x 1 symbolic byte)", [("c0", "u8"), ("c1", "u8")], "c08_rule", asserts="the pattern part survives unchanged", cuts=V0_CUT),
     ],
     level_text="Decides field-by-field fidelity of the hand-written rule mapping engine-rule -> wire struct -> engine-rule for arbitrary rule values (all masks, every optional field).",
     level_note="Partial. Decided: the two rule-level From impls of data_format/v0.rs. Outside: msgpack byte codec (rmp-serde), list-level and cosmetic-DB mappings (iterate std HashMaps: one-entry round trip no result in 15 min), query-level equality. Known finding: modifier_option survives only under the redirect/csp bit (removeparam rules lose their parameter; role modifier-option-only-kept-for-redirect-and-csp).",
@@ -313,9 +328,15 @@ PROPERTIES["C12"] = dict(
              asserts="is_http <=> 'http'; is_https <=> 'https' or empty; supported <=> {'',http,https,ws,wss}; websocket type forced <=> ws/wss", stubs=[PACK]),
         kern("C12.types", "src/request.rs", "h_request.rs", "c12_types", [Q, T], 20, 600, 4, ["request::cpt_match_type"], "the 24 documented spellings + one unknown, chosen by a symbolic index", [("i", "usize")], "c12_types",
              asserts="alias table maps each spelling to the documented request type"),
-        kern("C12.srchash", "src/request.rs", "h_request.rs", "c12_srchash", [Q], 60, 900, 8, ["request::Request::preparsed", "request::Request::from_detailed_parameters"],
+        kern("C12.srchash", "src/request.rs", "h_request.rs", "c12_srchash", [Q], 60, 1200, 10, ["request::Request::preparsed", "request::Request::from_detailed_parameters"],
              "source host 0..=4 printable ASCII bytes", [("hb", B(4)), ("hl", "usize")], "c12_srchash",
              asserts="source hashes absent iff host empty; else hash(full host) followed by hash of the suffix after each '.' that is not the last byte, nothing else", stubs=[PACK]),
+        kern("C12.presplit_t", "src/request.rs", "h_request.rs", "c12_presplit_t", [T], 430, 2400, 16, ["request::Request::preparsed", "request::Request::from_detailed_parameters"],
+             "every URL string 0..=4 printable ASCII bytes", [("ub", B(4)), ("ul", "usize")], "c12_presplit",
+             asserts="as C12.presplit", stubs=[PACK]),
+        kern("C12.presplit", "src/request.rs", "h_request.rs", "c12_presplit", [Q], 60, 1500, 12, ["request::Request::preparsed", "request::Request::from_detailed_parameters"],
+             "every URL string 0..=3 printable ASCII bytes", [("ub", B(3)), ("ul", "usize")], "c12_presplit",
+             asserts="the scheme is the URL prefix before the first ':' (empty when there is none); supported <=> that prefix in {'',http,https,ws,wss}; ws/wss force the websocket type", stubs=[PACK]),
         kern("C12.srchash_t", "src/request.rs", "h_request.rs", "c12_srchash_t", [T], 260, 2400, 12, ["request::Request::preparsed"], "source host 0..=5 bytes", [("hb", B(5)), ("hl", "usize")], "c12_srchash",
              asserts="as C12.srchash", stubs=[PACK]),
     ],
